@@ -58,7 +58,9 @@ fn call_should_gzip(v: Option<&[u8]>) -> Result<bool, String> {
             http::HeaderValue::from_bytes(v).map_err(|_| "refused".to_string())?,
         );
     }
-    catch_unwind(AssertUnwindSafe(|| http_serve::should_gzip(&h))).map_err(|p| format!("panic: {}", panic_msg(p)))
+    let hv = v.map(|v| v.to_vec());
+    let case: crate::report::CaseFn = Box::new(move || json!({"engine": "neg_mc", "accept_encoding": hv.as_ref().map(|v| crate::report::bytes_json(v))}));
+    crate::report::watched(case, || catch_unwind(AssertUnwindSafe(|| http_serve::should_gzip(&h))).map_err(|p| format!("panic: {}", panic_msg(p))))
 }
 
 fn judge(v: Option<&[u8]>, st: &mut Stats, order: u64, prop: &str) {
@@ -70,7 +72,18 @@ fn judge(v: Option<&[u8]>, st: &mut Stats, order: u64, prop: &str) {
         r => r,
     };
     st.evaluations += 1;
-    let want = prefers_gzip(v);
+    let mut want = prefers_gzip(v);
+    // Outside the grammar nothing is asserted -- except that a value which mentions neither gzip
+    // (in any case) nor `*` cannot have allowed gzip, whatever else it is: "gzip is never chosen
+    // for a client that did not allow it".
+    if want.is_none() {
+        if let Some(b) = v {
+            let lower = b.to_ascii_lowercase();
+            if !lower.windows(4).any(|w| w == b"gzip") && !b.contains(&b'*') {
+                want = Some(false);
+            }
+        }
+    }
     // state = which of gzip / identity / * carry which kind of quality, per the harness parser
     let profile = v.map(|b| match crate::oracle::accept::parse(b) {
         crate::oracle::accept::Parsed::List(l) => {
@@ -132,7 +145,7 @@ pub fn run_c16(run: &mut Run) -> Stats {
     let tier = run.tier;
     let kmax = tier.pick(3, 4);
     let prop = run.prop.clone();
-    run.rule = format!("absent header; every list of 0..{kmax} elements over distinct codings {{gzip, identity, *, br, deflate, x-gzip}} x every weight in {{none, 0, 0., 0.0, 0.000, 0.001, 0.5, 0.999, 1, 1., 1.000}} per element x 5 whitespace styles (',' / ', ' / ' ; ' / tabs / ' , '), compared with an independent evaluator of RFC 7231 5.3.4 written from the statement (qualities as integers in thousandths, identity default = least-preferred acceptable); lists of up to 42 distinct codings with the deciding elements first and last; lists with a repeated coding, and every string of <= n symbols over {{g z * ; q = 0 1 . , SP 0xFF U+00E9 U+20AC (UTF-8)}} and every weight string of length <= 6 over {{0 1 9 .}}: no panic (and agreement wherever the evaluator has a verdict). non-trivial = distinct header values with a verdict from the evaluator");
+    run.rule = format!("absent header; every list of 0..{kmax} elements over distinct codings {{gzip, identity, *, br, deflate, x-gzip}} x every weight in {{none, 0, 0., 0.0, 0.000, 0.001, 0.5, 0.999, 1, 1., 1.000}} per element x 5 whitespace styles (',' / ', ' / ' ; ' / tabs / ' , '), compared with an independent evaluator of RFC 7231 5.3.4 written from the statement (qualities as integers in thousandths, identity default = least-preferred acceptable); lists of up to 42 distinct codings with the deciding elements first and last; every pair of adjacent weights (w-1 and w thousandths, w = 1..1000) between gzip and identity / '*'; lists with a repeated coding, and every string of <= n symbols over {{g z * ; q = 0 1 . , SP 0xFF U+00E9 U+20AC (UTF-8)}} and every weight string of length <= 6 over {{0 1 9 .}}: no panic (and agreement wherever the evaluator has a verdict). non-trivial = distinct header values with a verdict from the evaluator");
     let mut outer: Vec<Vec<usize>> = Vec::new();
     for k in 0..=kmax {
         outer.extend(lists_k(k));
@@ -235,6 +248,26 @@ pub fn run_c16(run: &mut Run) -> Stats {
         }
     }
     total.merge(st);
+    // Every pair of ADJACENT weights (w-1, w thousandths) between gzip and identity / '*', both
+    // ways round: a qvalue parser that is off by a thousandth anywhere on the scale shows here.
+    {
+        let mut st = Stats::new();
+        let q = |w: u32| if w >= 1000 { "1".to_string() } else { format!("0.{w:03}") };
+        for w in 1..=1000u32 {
+            for h in [
+                format!("gzip;q={}, identity;q={}", q(w - 1), q(w)),
+                format!("gzip;q={}, identity;q={}", q(w), q(w - 1)),
+                format!("identity;q={}, gzip;q={}", q(w), q(w)),
+                format!("gzip;q={}, *;q={}", q(w - 1), q(w)),
+                format!("*;q={}, identity;q={}", q(w), q(w - 1)),
+                format!("br;q={}, gzip;q={}, identity;q={}", q(w), q(w), q(w - 1)),
+            ] {
+                st.nontrivial(&h);
+                judge(Some(h.as_bytes()), &mut st, (1 << 50) + w as u64, &prop);
+            }
+        }
+        total.merge(st);
+    }
     // arbitrary short strings
     // symbols, not bytes: the two multi-byte symbols are well-formed UTF-8 characters (a value that
     // is valid UTF-8 but not ASCII takes other paths through str-based parsing than a stray 0xFF)
@@ -265,6 +298,10 @@ pub fn run_c16(run: &mut Run) -> Stats {
         let mut h = b"gzip;q=0.5, ".to_vec();
         h.extend(&v);
         judge(Some(&h), st, (1 << 53) + i, &prop);
+        // ... and after a coding that is not gzip (nothing here can allow gzip without a `*`)
+        let mut h = b"br, ".to_vec();
+        h.extend(&v);
+        judge(Some(&h), st, (1 << 54) + i, &prop);
     });
     total.merge(st2);
     total
@@ -355,7 +392,7 @@ pub fn c17_case(ae: &Option<String>, level: u32, chunk: usize, method: &str, as_
 
 #[allow(clippy::too_many_arguments)]
 pub fn c17_case_calls(ae: &Option<String>, level: u32, chunk: usize, method: &str, as_parts: bool, payload_len: usize, pre: &[Option<u32>], out: &mut Vec<Finding>) -> Option<String> {
-    let cfg = Config { chunk, level, accept: ae.clone(), payload: Payload::Rand, fresh_wakers: false };
+    let cfg = Config { chunk, level, accept: ae.clone(), payload: Payload::Rand, fresh_wakers: false, hop_threads: false };
     let mut x = match Exec::new_calls(&cfg, method, as_parts, pre) {
         Ok(x) => x,
         Err(m) => {
@@ -489,7 +526,7 @@ pub fn run_c17(run: &mut Run) -> Stats {
     let tier = run.tier;
     let values = c17_values(tier);
     let prop = run.prop.clone();
-    run.rule = "Accept-Encoding values {absent, empty, every C16 list of <= 2 elements, 20 hand-picked 3-element / malformed values} x gzip level 0..9 x chunk size {1, 7, 4096} x methods {GET, HEAD, POST} x request given as http::Request and as http::request::Parts x writer histories {write_all(n); flush; drop for n in {0, 300}; drop only; flush, drop; write_all(300), drop; write(6), write_all(3000), write_all(7), drop; 40 x write_all(17), flush, write_all(1), drop; write_vectored(20 bytes in three slices) twice, flush, write_vectored(5), drop} (the last six at levels 0, 1, 6, 9). Oracle: Vary names accept-encoding; Content-Encoding: gzip iff (independent evaluator prefers gzip) and level > 0, never another coding; body sniffed by the independent decoder: says gzip <=> exactly one gzip member of the payload, otherwise the payload verbatim; both request representations give identical headers; HEAD: same headers, no writer, empty body; earlier builder calls that are overridden, and the two final builder calls in either order, must not matter. non-trivial = distinct (Accept-Encoding, level, chunk, method, representation, payload)".into();
+    run.rule = "Accept-Encoding values {absent, empty, every C16 list of <= 2 elements, 20 hand-picked 3-element / malformed values} x gzip level 0..9 x chunk size {1, 7, 4096} x methods {GET, HEAD, POST} x request given as http::Request and as http::request::Parts x writer histories {write_all(n); flush; drop for n in {0, 300}; drop only; flush, drop; write_all(300), drop; write(6), write_all(3000), write_all(7), drop; 40 x write_all(17), flush, write_all(1), drop; write_vectored(20 bytes in three slices) twice, flush, write_vectored(5), drop} (the last six at levels 0, 1, 6, 9). Oracle: Vary names accept-encoding; Content-Encoding: gzip iff (independent evaluator prefers gzip) and level > 0, never another coding; body sniffed by the independent decoder: says gzip <=> exactly one gzip member of the payload, otherwise the payload verbatim; both request representations give identical headers; HEAD: same headers, no writer, empty body; earlier builder calls that are overridden, and the two final builder calls in either order, must not matter; other request headers (Cache-Control: no-transform, Range, TE, Content-Encoding, User-Agent ...) must not matter. non-trivial = distinct (Accept-Encoding, level, chunk, method, representation, payload)".into();
     run.bounds = json!({"accept_encoding_values": values.len(), "levels": 10, "chunk_sizes": [1, 7, 4096], "methods": 3});
     par_for(values.len() as u64, threads(), |i, st| {
         let ae = &values[i as usize];
@@ -547,6 +584,32 @@ pub fn run_c17(run: &mut Run) -> Stats {
                                     }
                                     if differs && prop == "C17" {
                                         st.violation(order, "builder-call-order".into(), format!("earlier builder calls {pre:?} (overridden by the final with_chunk_size/with_gzip_level) change the response: {r:?} vs {base}"), || json!({"engine": "neg_mc_c17", "accept_encoding": ae, "level": level, "chunk": chunk, "method": method, "as_parts": false, "payload_len": plen, "earlier_builder_calls": format!("{pre:?}")}));
+                                    }
+                                }
+                            }
+                        }
+                        // other request headers must not matter: the decision is stated in terms of
+                        // Accept-Encoding (as should_gzip reads it) and the configured level alone
+                        if let Some(base) = reprs.first() {
+                            if plen == 0 && (level == 0 || level == 6) && chunk == 7 {
+                                let other: [&[(&str, &str)]; 3] = [
+                                    &[("cache-control", "no-transform"), ("range", "bytes=0-1"), ("te", "gzip")],
+                                    &[("content-encoding", "gzip"), ("accept", "text/html;q=0.5"), ("if-none-match", "\"x\""), ("pragma", "no-cache")],
+                                    &[("user-agent", "MSIE 6.0"), ("via", "1.0 proxy"), ("accept-charset", "utf-8"), ("transfer-encoding", "chunked"), ("x-forwarded-for", "10.0.0.1")],
+                                ];
+                                for o in other {
+                                    order += 1;
+                                    let cfg = Config { chunk, level, accept: ae.clone(), payload: Payload::Rand, fresh_wakers: false, hop_threads: false };
+                                    if let Ok(x) = Exec::new_calls_with(&cfg, method, false, &[], o) {
+                                        st.evaluations += 1;
+                                        st.count("requests_with_other_headers", 1);
+                                        let mut h = x.resp_headers.clone();
+                                        h.sort();
+                                        let hdrs = format!("{h:?}");
+                                        let base_hdrs = base.split('|').nth(1).unwrap_or("").to_string();
+                                        if hdrs != base_hdrs && prop == "C17" {
+                                            st.violation(order, "other-request-headers-matter".into(), format!("the same Accept-Encoding and level give other response headers when the request also carries {o:?}: {hdrs} vs {base_hdrs}"), || json!({"engine": "neg_mc_c17", "accept_encoding": ae, "level": level, "chunk": chunk, "method": method, "as_parts": false, "payload_len": plen, "other_request_headers": format!("{o:?}")}));
+                                        }
                                     }
                                 }
                             }
